@@ -54,7 +54,7 @@ PROFILES = {
     "subq4": prof("MC_Focus", "MovesSubq", 4, srcs=[1]),
     "subq5": prof("MC_Focus", "MovesSubq", 5, srcs=[1]),
     "tall2": prof("MC_Focus", "MovesTall", 2, srcs=[12]),
-    "ty2": prof("MC_Focus", "MovesTy", 2, srcs=[1, 8, 4]),
+    "ty2": prof("MC_Focus", "MovesTy", 2, srcs=[1, 8, 4, 13]),
     "err2": prof("MC_Focus", "MovesErr", 2, srcs=[1, 4]),
     "err3": prof("MC_Focus", "MovesErr", 3, srcs=[1]),
     "wins3": prof("MC_Focus", "MovesWinS", 3, srcs=[1, 6, 7]),
